@@ -57,50 +57,69 @@ impl CornerRadii {
     }
 
     /// Confine corner radii that are too large to a given bounding rectangle
+    ///
+    /// If the radii along any side add up to more than the length of this side, all radii are
+    /// scaled down by the same factor until none of the sides overflows anymore. The factor is
+    /// the smallest ratio between the length of a side and the sum of the radii along this side.
     pub(in crate::primitives) fn confine(self, bounding_box: Size) -> Self {
-        let mut overlap = 0;
-        let mut size = 0;
-        let mut corner_size = 0;
+        let sides = [
+            // Top
+            (
+                bounding_box.width,
+                self.top_left.width.saturating_add(self.top_right.width),
+            ),
+            // Right
+            (
+                bounding_box.height,
+                self.top_right
+                    .height
+                    .saturating_add(self.bottom_right.height),
+            ),
+            // Bottom
+            (
+                bounding_box.width,
+                self.bottom_left
+                    .width
+                    .saturating_add(self.bottom_right.width),
+            ),
+            // Left
+            (
+                bounding_box.height,
+                self.top_left.height.saturating_add(self.bottom_left.height),
+            ),
+        ];
 
-        let top_radii = self.top_left.width + self.top_right.width;
-        let right_radii = self.top_right.height + self.bottom_right.height;
-        let bottom_radii = self.bottom_left.width + self.bottom_right.width;
-        let left_radii = self.top_left.height + self.bottom_left.height;
+        // Scale factor `size / corner_size` of the most constraining side.
+        let mut size = 1;
+        let mut corner_size = 1;
 
-        let o = top_radii.saturating_sub(bounding_box.width);
-        if o > overlap {
-            size = bounding_box.width;
-            corner_size = top_radii;
-            overlap = o;
+        for (side_size, side_corner_size) in sides {
+            // side_size / side_corner_size < size / corner_size
+            //
+            // The comparison and the scaling below use 64 bit integers to prevent overflows.
+            if u64::from(side_size) * u64::from(corner_size)
+                < u64::from(size) * u64::from(side_corner_size)
+            {
+                size = side_size;
+                corner_size = side_corner_size;
+            }
         }
 
-        let o = right_radii.saturating_sub(bounding_box.height);
-        if o > overlap {
-            size = bounding_box.height;
-            corner_size = right_radii;
-            overlap = o;
-        }
+        if size < corner_size {
+            let scale = |radius: Size| {
+                let scale_length = |length: u32| {
+                    // The result always fits into a `u32`, because `size < corner_size`.
+                    (u64::from(length) * u64::from(size) / u64::from(corner_size)) as u32
+                };
 
-        let o = bottom_radii.saturating_sub(bounding_box.width);
-        if o > overlap {
-            size = bounding_box.width;
-            corner_size = bottom_radii;
-            overlap = o;
-        }
+                Size::new(scale_length(radius.width), scale_length(radius.height))
+            };
 
-        let o = left_radii.saturating_sub(bounding_box.height);
-        if o > overlap {
-            size = bounding_box.height;
-            corner_size = left_radii;
-            overlap = o;
-        }
-
-        if overlap > 0 && corner_size > 0 {
             Self {
-                top_left: (self.top_left * size) / corner_size,
-                top_right: (self.top_right * size) / corner_size,
-                bottom_right: (self.bottom_right * size) / corner_size,
-                bottom_left: (self.bottom_left * size) / corner_size,
+                top_left: scale(self.top_left),
+                top_right: scale(self.top_right),
+                bottom_right: scale(self.bottom_right),
+                bottom_left: scale(self.bottom_left),
             }
         } else {
             self
